@@ -83,6 +83,8 @@ def gen_frame(rng, t, ncols: int, kind: str) -> dict:
     """kind: plain | grouped | broken (non-contiguous c0 => group_by fails) |
     broken2 (c0 contiguous, c1 non-contiguous inside a c0 group => only a two-level group_by fails)."""
     nrows = rng.choice([1, 2, 3, 5, 8, 13, 21, 34] if t["small_nrow"] else [1, 2, 3, 4, 6, 10])
+    if kind == "plain" and rng.random() < 0.03:
+        nrows = 0  # an empty table
     cols = []
     for j in range(ncols):
         name = f"c{j}"
@@ -159,6 +161,19 @@ def gen_body_spec(rng, t, ncols: int | None) -> dict:
         b["text_convert"] = [[rng.random() < 0.5]]
     if rng.random() < 0.15:
         b["as_colheader"] = False
+    # rarely used attributes, one or two at a time (value-level diversity)
+    if rng.random() < 0.35:
+        extras = [("border_width", [[rng.choice([5, 15, 30])]]), ("cell_height", [[rng.choice([0.1, 0.15, 0.3])]]),
+                  ("cell_justification", [[rng.choice(JUST)]]),
+                  ("cell_vertical_justification", [[rng.choice(["top", "center", "bottom"])]]),
+                  ("text_indent_first", [[rng.choice([0, 100, 300])]]), ("text_indent_left", [[rng.choice([0, 150])]]),
+                  ("text_indent_right", [[rng.choice([0, 150])]]), ("text_space", [[rng.choice([1, 1.5, 2])]]),
+                  ("text_space_before", [[rng.choice([0, 15, 60])]]), ("text_space_after", [[rng.choice([0, 15, 60])]]),
+                  ("text_hyphenation", [[rng.random() < 0.5]]), ("text_font", [[rng.choice([1, 2, 4, 9])]]),
+                  ("last_row", rng.random() < 0.5), ("pageby_header", rng.random() < 0.5),
+                  ("border_left", [[rng.choice(BORDERS)]]), ("border_right", [[rng.choice(BORDERS)]])]
+        for k, v in rng.sample(extras, rng.choice([1, 2])):
+            b[k] = v
     return b
 
 
@@ -186,6 +201,13 @@ def gen_text_comp(rng, t, what: str) -> dict:
                 c[k] = [c[k]]
     if what in ("page_header", "page_footer", "subline", "title") and rng.random() < 0.15:
         c["text_indent_reference"] = rng.choice(["table", "page"])
+    if rng.random() < 0.2:
+        flat = what not in ("footnote", "source")
+        extras = [("text_font_size", rng.choice([7, 9, 12, 14])), ("text_justification", rng.choice(JUST)),
+                  ("text_font", rng.choice([1, 3, 9])), ("text_indent_left", rng.choice([0, 200])),
+                  ("text_space_before", rng.choice([0, 90, 180])), ("text_hyphenation", rng.random() < 0.5)]
+        k, v = rng.choice(extras)
+        c[k] = [v] if flat else [[v]]
     return c
 
 
@@ -219,6 +241,12 @@ def gen_page_spec(rng, t) -> dict:
                 p[k] = rng.choice(["first", "last", "all"])
     if rng.random() < 0.1:
         p["col_width"] = rng.choice([5.0, 6.5])
+    if rng.random() < 0.1:
+        p["margin"] = rng.choice([[1.0, 1.0, 1.5, 1.0, 1.0, 0.5], [0.5, 0.5, 1.0, 1.0, 0.75, 0.75]])
+    if rng.random() < 0.08:
+        p["width"], p["height"] = rng.choice([(8.27, 11.69), (11.0, 17.0)])
+    if rng.random() < 0.08:
+        p["use_color"] = rng.random() < 0.5
     return p
 
 
@@ -353,7 +381,7 @@ def gen_recipe(rng, t, pal) -> dict:
         rec["bodies"].append(body)
         mode = t["headers"] if t["headers"] != "mixed" else rng.choice(["default", "explicit", "absent"])
         if mode == "explicit":
-            nh = rng.choice([1, 1, 2])
+            nh = rng.choice([1, 1, 2, 3])
             hdrs.append([dict(rng.choice(pal["header_n"][n])) for _ in range(nh)])
         elif mode == "default":
             hdrs.append([dict(rng.choice(pal["header_any"]))])
